@@ -85,7 +85,9 @@ fn join(tokens: &[String], sep: &str) -> String {
     tokens.join(sep)
 }
 
-pub fn judge(out: &mut ChunkOut, scope: &str, text: &str, flags: &str, xsd: bool, re: &Regex, inp: &str) {
+/// The model-free consistency judgement, reported under property `prop` (C13 uses it for literals).
+#[allow(clippy::too_many_arguments)]
+pub fn judge_as(prop: &'static str, out: &mut ChunkOut, scope: &str, text: &str, flags: &str, xsd: bool, re: &Regex, inp: &str) {
     let chars: Vec<char> = inp.chars().collect();
     let base = Case::new(scope, text, flags).xsd(xsd).input(inp);
     let an = imp::analyze(re, inp);
@@ -99,7 +101,7 @@ pub fn judge(out: &mut ChunkOut, scope: &str, text: &str, flags: &str, xsd: bool
     if an.is_crash() || tk.is_crash() || r0.is_crash() {
         // the three loops are driven by one sequence of spans: one of them failing alone is a disagreement
         out.inc("validated");
-        out.fail("C04", &base.clone().api("all"), "OneApiCrashes", "the three APIs accept or reject together", &format!("analyze={} tokenize={} replace_all={}", an.show(), tk.show(), r0.show()), "a panic or an exhausted step budget in some of the three only");
+        out.fail(prop, &base.clone().api("all"), "OneApiCrashes", "the three APIs accept or reject together", &format!("analyze={} tokenize={} replace_all={}", an.show(), tk.show(), r0.show()), "a panic or an exhausted step budget in some of the three only");
         return;
     }
     let (an, tk, r0) = match (an, tk, r0) {
@@ -114,7 +116,7 @@ pub fn judge(out: &mut ChunkOut, scope: &str, text: &str, flags: &str, xsd: bool
             } else {
                 out.inc("validated");
                 out.fail(
-                    "C04",
+                    prop,
                     &base.clone().api("all"),
                     "ApisDisagreeOnError",
                     "the three APIs accept or reject together",
@@ -129,13 +131,13 @@ pub fn judge(out: &mut ChunkOut, scope: &str, text: &str, flags: &str, xsd: bool
     // 1. analyze texts concatenate to the input
     let cat: String = an.iter().map(imp::entry_text).collect();
     if cat != inp {
-        out.fail("C04", &base.clone().api("analyze"), "AnalyzeNotPartition", inp, &cat, "concatenated analyze texts");
+        out.fail(prop, &base.clone().api("analyze"), "AnalyzeNotPartition", inp, &cat, "concatenated analyze texts");
         return;
     }
     // no empty NonMatch entries, no two adjacent NonMatch entries
     for w in an.windows(2) {
         if matches!((&w[0], &w[1]), (AnalyzeEntry::NonMatch(_), AnalyzeEntry::NonMatch(_))) {
-            out.fail("C04", &base.clone().api("analyze"), "AdjacentNonMatches", "alternating entries", &format!("{:?}", an), "");
+            out.fail(prop, &base.clone().api("analyze"), "AdjacentNonMatches", "alternating entries", &format!("{:?}", an), "");
             return;
         }
     }
@@ -152,7 +154,7 @@ pub fn judge(out: &mut ChunkOut, scope: &str, text: &str, flags: &str, xsd: bool
     }
     if tk != want_tokens {
         out.fail(
-            "C04",
+            prop,
             &base.clone().api("tokenize"),
             "TokensDisagreeWithAnalyze",
             &format!("{:?}", want_tokens),
@@ -164,7 +166,7 @@ pub fn judge(out: &mut ChunkOut, scope: &str, text: &str, flags: &str, xsd: bool
     let literal = flags.split(';').next().unwrap_or("").contains('q');
     // 3. replace_all with $0 is the identity
     if !literal && r0 != inp {
-        out.fail("C04", &base.clone().repl("$0").api("replace_all"), "ReplaceDollar0NotIdentity", inp, &r0, "");
+        out.fail(prop, &base.clone().repl("$0").api("replace_all"), "ReplaceDollar0NotIdentity", inp, &r0, "");
     }
     // 4. replace_all with a metacharacter-free replacement = tokens joined
     for r in ["", "x", "\u{b7}\u{b7}"] {
@@ -173,7 +175,7 @@ pub fn judge(out: &mut ChunkOut, scope: &str, text: &str, flags: &str, xsd: bool
                 let want = if inp.is_empty() { String::new() } else { join(&want_tokens, r) };
                 if got != want {
                     out.fail(
-                        "C04",
+                        prop,
                         &base.clone().repl(r).api("replace_all"),
                         "ReplaceDisagreesWithAnalyze",
                         &want,
@@ -186,7 +188,7 @@ pub fn judge(out: &mut ChunkOut, scope: &str, text: &str, flags: &str, xsd: bool
                 if o.is_crash() {
                     out.inc("inconclusive_crash");
                 } else {
-                    out.fail("C04", &base.clone().repl(r).api("replace_all"), "ApisDisagreeOnError", "Ok", &o.show(), "");
+                    out.fail(prop, &base.clone().repl(r).api("replace_all"), "ApisDisagreeOnError", "Ok", &o.show(), "");
                 }
             }
         }
@@ -195,7 +197,7 @@ pub fn judge(out: &mut ChunkOut, scope: &str, text: &str, flags: &str, xsd: bool
     if let (false, Out::Ok(rs)) = (literal, imp::spans_from_replace(re, inp)) {
         if rs != spans {
             out.fail(
-                "C04",
+                prop,
                 &base.clone().repl("\u{1}$0\u{2}").api("replace_all"),
                 "ReplaceSpansDisagreeWithAnalyze",
                 &format!("{:?}", spans),
@@ -204,6 +206,10 @@ pub fn judge(out: &mut ChunkOut, scope: &str, text: &str, flags: &str, xsd: bool
             );
         }
     }
+}
+
+pub fn judge(out: &mut ChunkOut, scope: &str, text: &str, flags: &str, xsd: bool, re: &Regex, inp: &str) {
+    judge_as("C04", out, scope, text, flags, xsd, re, inp)
 }
 
 impl Check for C04 {
